@@ -179,6 +179,26 @@ def fam_refcount(rng):
     return lines
 
 
+def fam_alloc_fail(rng):
+    """C19: small note trees and counters built by the fibers themselves; the k-th allocation performed by a
+    CONSTRUCTOR fails (exec key failmalloc=k counts every malloc of the library, so the scenario performs no
+    other allocation before the constructors: no contention, no waits).  Afterwards the would-be parent and the
+    other objects are used normally."""
+    lines = ["sem counting", "objs mu=0 cv=0 var=0 once=0 sem=0"]
+    n = rng.choice([2, 3, 4])
+    ops = []
+    for i in range(n):
+        ops.append("note_new n%d %s %s" % (i, "-" if i == 0 or rng.random() < 0.3 else "n%d" % rng.randrange(i), rng.choice(["inf", "p5000", "inf"])))
+    ops.append("ctr_new k0 %d" % rng.choice([0, 1, 2]))
+    ops.append("ctr_new k1 1")
+    # use what exists afterwards (ops on a NULL object are skipped by the interpreter)
+    use = ["is_notified n0", "notify n0", "is_notified n1", "note_expiry n1", "ctr_value k0", "ctr_add k1 -1", "ctr_value k1", "notify n1", "is_notified n2"]
+    rng.shuffle(use)
+    lines.append("fiber " + " ; ".join(ops + use[:rng.choice([3, 5, 7])]))
+    lines.append("#failmalloc %d" % rng.randrange(1, n + 3))
+    return lines
+
+
 def fam_mixed(rng):
     return rng.choice([fam_core, fam_cv, fam_cv_raw, fam_muwait, fam_waitn_cv, fam_cv_rsignal])(rng)
 
@@ -233,17 +253,36 @@ def fam_ctr(rng):
     for i in range(nadd):
         ops = ["yield"] * rng.randrange(0, 3) + ["wr x%d 1" % i] + ["ctr_add k0 -1"] * per[i]
         lines.append("fiber " + " ; ".join(ops))
-    for _ in range(rng.choice([1, 1, 2])):
-        dl = rng.choice(["inf", "inf", "p1000", "p90000", "m5", "z"])
-        ops = ["ctr_wait k0 %s" % dl, "ctr_value k0"]
+    nwait = rng.choice([1, 1, 2, 3, 4])
+    for i in range(nwait):
+        # with several waiters the later ones tend to be timed (a deadline expiring while the zeroing add wakes the others)
+        dl = rng.choice(["inf", "inf", "p1000", "p90000", "m5", "z"]) if i < 2 else rng.choice(["p1000", "p3000", "p90000", "inf"])
+        ops = ["yield"] * (i if nwait > 2 else 0) + ["ctr_wait k0 %s" % dl, "ctr_value k0"]
         lines.append("fiber " + " ; ".join(ops))
     if rng.random() < 0.4:
         lines.append("fiber ctr_value k0 ; yield ; ctr_add k0 0 ; ctr_value k0")
     return lines
 
 
-FAMILIES = {"refcount": fam_refcount, "starve": fam_starve, "cv_rsignal": fam_cv_rsignal, "ctr": fam_ctr, "once": fam_once, "futex": fam_futex,"core": fam_core, "cv": fam_cv, "cv_raw": fam_cv_raw, "muwait": fam_muwait, "debug": fam_debug,
+import gen_note as _gn
+try:
+    import gen_waitn as _gw
+except Exception:
+    _gw = None
+try:
+    import gen_muc as _gm
+except Exception:
+    _gm = None
+
+FAMILIES = {"alloc_fail": fam_alloc_fail, "note": _gn.fam_note, "note_f4": _gn.fam_note_f4, "note_f4b": _gn.fam_note_f4b, "note_f7": _gn.fam_note_f7, "refcount": fam_refcount, "starve": fam_starve, "cv_rsignal": fam_cv_rsignal, "ctr": fam_ctr, "once": fam_once, "futex": fam_futex,"core": fam_core, "cv": fam_cv, "cv_raw": fam_cv_raw, "muwait": fam_muwait, "debug": fam_debug,
             "waitn_cv": fam_waitn_cv, "mixed": fam_mixed}
+
+
+if _gw is not None:
+    FAMILIES["waitn"] = _gw.fam_waitn
+    if hasattr(_gw, "fam_waitn_f3"): FAMILIES["waitn_f3"] = _gw.fam_waitn_f3
+if _gm is not None:
+    FAMILIES["muc"] = _gm.fam_muc
 
 
 def make_batch(path, seed, plan):
@@ -258,6 +297,10 @@ def make_batch(path, seed, plan):
                 if "#strategy4" in lines:      # half of the schedules of this scenario are adversarial
                     lines = [l for l in lines if l != "#strategy4"]
                     ex = [e.replace("strategy=%s" % e.split("strategy=")[1].split()[0], "strategy=4") if i % 2 == 0 else e for i, e in enumerate(ex)]
+                fm = [l for l in lines if l.startswith("#failmalloc ")]
+                if fm:
+                    lines = [l for l in lines if not l.startswith("#failmalloc ")]
+                    ex = [e + " failmalloc=%s" % fm[0].split()[1] for e in ex]
                 blocks.append((fam, lines))
                 f.write("\n".join(lines) + "\n" + "\n".join(ex) + "\n---\n")
     return blocks
